@@ -97,7 +97,8 @@ async def run_schema(s, cases, schema_name):
             @Subscription("Subscription." + fname, schema_name=schema_name)
             async def gen_(parent, args, ctx, info):
                 current["started"].append((fname, dict(args)))
-                for ev in current["events"]:
+                evs = list(current["events"])          # this stream's own events, fixed when the source starts
+                for ev in evs:
                     yield ev
         mk(f["name"])
     engine = await execgen.build_engine(s, schema_name, oracle_ref, rec)
@@ -136,6 +137,48 @@ async def run_schema(s, cases, schema_name):
                                                    context=ctx_obj, initial_value=ev))
         out.append({"responses": responses, "raised": raised, "started": list(current["started"]),
                     "per_event": per_event, "direct": direct})
+    # interleaved consumption: two streams live at the same time on this engine (same root field when possible), the
+    # one opened first ending while the other is suspended between events; each must answer as it did alone
+    good = [i for i, (c, o) in enumerate(zip(cases, out)) if o["started"] and not o["raised"] and len(c["events"]) >= 1
+            and len(o["responses"]) == len(c["events"])]
+    pairs = []
+    for i in good:
+        same = [j for j in good if j != i and cases[j]["field"] == cases[i]["field"] and len(cases[j]["events"]) > len(cases[i]["events"])]
+        other = [j for j in good if j != i and len(cases[j]["events"]) > len(cases[i]["events"])]
+        if same:
+            pairs.append((i, same[0]))
+        elif other and len(pairs) < 6:
+            pairs.append((i, other[0]))
+    inter = []
+    for i, j in pairs[:12]:
+        a, b = cases[i], cases[j]
+        got = {i: [], j: []}
+        raised = None
+        try:
+            async def pull(k, c, agen):
+                oracle_ref[0] = execgen.Oracle(s, c["oracle_seed"] + len(got[k]), 0.05, 0.08)
+                rec.clear()
+                try:
+                    got[k].append(await agen.__anext__())
+                    return True
+                except StopAsyncIteration:
+                    return False
+            current["events"] = [execgen.realise(e) for e in a["events"]]
+            ga = engine.subscribe(a["query"], operation_name=a["opname"], variables=a["variables"], context=ctx_obj)
+            await pull(i, a, ga)
+            current["events"] = [execgen.realise(e) for e in b["events"]]
+            gb = engine.subscribe(b["query"], operation_name=b["opname"], variables=b["variables"], context=ctx_obj)
+            await pull(j, b, gb)
+            while await pull(i, a, ga):           # the first stream runs to its end (and is torn down) ...
+                if len(got[i]) > 60:
+                    break
+            while await pull(j, b, gb):           # ... while the second was suspended between two events
+                if len(got[j]) > 60:
+                    break
+        except Exception as e:  # pylint: disable=broad-except
+            raised = repr(e)
+        inter.append({"first": i, "second": j, "got_first": got[i], "got_second": got[j], "raised": raised})
+    run_schema.interleaved = inter
     return out
 
 
@@ -158,6 +201,7 @@ def main(tier_, replay=None):
     cfg = {"parent": True, "list": True, "args": "gather"}
     files, meta = [], []
     viol, total_events, total_streams, refused = [], 0, 0, 0
+    interleaved_total = 0
     for si in range(n_schemas):
         s = execgen.gen_exec_schema(rng, with_subscription=True)
         for f in s["types"]["Subscription"]["fields"]:
@@ -166,6 +210,17 @@ def main(tier_, replay=None):
                 s["field_type_resolvers"].discard(("Subscription", f["name"]))
         cases = [gen_sub_case(rng, s) for _ in range(n_cases)]
         runs = asyncio.run(run_schema(s, cases, fresh_schema_name("c14")))
+        for it in getattr(run_schema, "interleaved", []):
+            interleaved_total += 1
+            for k, gk in ((it["first"], it["got_first"]), (it["second"], it["got_second"])):
+                solo = runs[k]["responses"]
+                if it["raised"] or [_canon(x) for x in gk] != [_canon(x) for x in solo]:
+                    viol.append((s, cases[k], dict(runs[k], responses=gk),
+                                 "consumed interleaved with another live stream of this engine (%s), the stream yields %d "
+                                 "responses %s; alone it yields %d" % (
+                                     "opened first, ended while the other was suspended" if k == it["first"] else
+                                     "suspended while the stream opened before it ended", len(gk), it["raised"] or "", len(solo))))
+                    break
         ev_cases, ev_asts, ev_runs, streams = [], [], [], []
         all_asts = []          # number lexemes of EVERY stream's document (also streams without events) for the float() table
         for c, r in zip(cases, runs):
@@ -249,7 +304,7 @@ def main(tier_, replay=None):
         "checker_cmd": "make Properties/C14.vo", "trusted_base": common.TRUSTED_BASE + [
             "Print Assumptions: %d theorems closed; axioms: %s" % (assum["closed"], assum["axioms"] or "none")],
         "theorems": [n for n in names if n.startswith("C14_")],
-        "evaluations": total_streams, "distinct_nontrivial": total_events,
+        "evaluations": total_streams, "distinct_nontrivial": total_events, "interleaved_pairs": interleaved_total,
         "rule": "subscription documents x finite event sequences (well-formed payloads, nulls, garbage), consumed "
                 "event by event; non-trivial = events answered and compared with execute(initial_value=event)",
         "traces_validated_against_impl": total_events, "refused_streams": refused,
